@@ -184,7 +184,11 @@ func eExec(m mix) (res eResult) {
 			vio("unexpected-error", "E:unexpected-error", "loadTasks failed on a configuration the property accepts: "+loadErr.Error()+"\n"+describe())
 		}
 	case !sameStrings(got, want.Tasks):
-		vio("task-set", "E:task-set:"+eClass(m, got, want.Tasks), describe())
+		key := "E:task-set:" + eClass(m, got, want.Tasks)
+		if m.hyphenNames() {
+			key += ":hyphen-names"
+		}
+		vio("task-set", key, describe())
 	default:
 		res.outcome = fmt.Sprintf("ok:%d-tasks", len(got))
 	}
@@ -225,7 +229,8 @@ func eClass(m mix, got, want []string) string {
 // eJobs returns the top-level jobs of part E: one per (slot A variant, slot B variant); each
 // job enumerates the source placements x batch/concurrency x stored form.
 type eJob struct {
-	A, B slotVar
+	A, B  slotVar
+	Mixes []mix // name-family jobs: the mixes are listed explicitly
 }
 
 func eJobs(thorough bool) []eJob {
@@ -239,10 +244,105 @@ func eJobs(thorough bool) []eJob {
 			jobs = append(jobs, eJob{A: a, B: b})
 		}
 	}
+	jobs = append(jobs, familyJobs()...)
+	return jobs
+}
+
+// ---- name families: '-' inside source and integration names ------------------------------------
+//
+// Names may contain '-' (wstrings.Safe allows it). A pair is identified by (source, integration), never by
+// a joined string: the families below contain DISTINCT pairs whose "<source>-<integration>" strings (and
+// "<integration>-<source>") coincide, plus a control family with hyphens but no coincidence.
+
+type family struct {
+	srcs []string
+	igs  []struct {
+		name string
+		refs []string
+	}
+}
+
+func fam(srcs []string, igs ...[]string) family {
+	f := family{srcs: srcs}
+	for _, ig := range igs {
+		f.igs = append(f.igs, struct {
+			name string
+			refs []string
+		}{ig[0], ig[1:]})
+	}
+	return f
+}
+
+var families = []family{
+	// eth/main-transfers and eth-main/transfers both join to "eth-main-transfers"
+	fam([]string{"eth", "eth-main"}, []string{"main-transfers", "eth"}, []string{"transfers", "eth-main"}),
+	// s/1-ig and s-1/ig join to "s-1-ig"; ig also runs on s
+	fam([]string{"s", "s-1"}, []string{"1-ig", "s"}, []string{"ig", "s", "s-1"}),
+	// the join in the other order, "<integration>-<source>": x-b on a and x on b-a both give "x-b-a"
+	fam([]string{"a", "b-a"}, []string{"x-b", "a"}, []string{"x", "b-a"}),
+	// three pairs, two of them coinciding, the integrations listed in the other order by name
+	fam([]string{"op", "op-main", "base"}, []string{"a-logs", "base"}, []string{"logs", "op-main"}, []string{"main-logs", "op"}),
+	// control: hyphens, no coincidence
+	fam([]string{"a-b", "c"}, []string{"x-y", "a-b"}, []string{"y", "c", "a-b"}),
+}
+
+// familyJobs: one job per (family, placement of the integrations in file/database); the job enumerates the
+// placement of every source (file / database / both), batch/concurrency set or unset, and the stored form.
+func familyJobs() []eJob {
+	var jobs []eJob
+	for _, f := range families {
+		for igPlace := 0; igPlace < 1<<len(f.igs); igPlace++ {
+			var base mix
+			for i, ig := range f.igs {
+				spec := mkIG(ig.name, true, ig.refs, uint64(100*(i+1)))
+				if igPlace>>i&1 == 0 {
+					base.FileIGs = append(base.FileIGs, *spec)
+				} else {
+					base.DBIGs = append(base.DBIGs, *spec)
+				}
+			}
+			var j eJob
+			n := 1
+			for range f.srcs {
+				n *= 3
+			}
+			for sp := 0; sp < n; sp++ {
+				for _, bc := range []bool{false, true} {
+					for _, stored := range []bool{false, true} {
+						if stored && len(base.DBIGs) == 0 {
+							continue
+						}
+						m := base
+						x := sp
+						for k, name := range f.srcs {
+							place := x%3 + 1 // 1 file, 2 database, 3 both
+							x /= 3
+							if place == 1 || place == 3 {
+								s := srcSpec{Name: name, ChainID: uint64(k + 1), Host: "node-" + name}
+								if bc {
+									s.Batch, s.Conc = 3+2*k, 2+k
+								}
+								m.FileSrcs = append(m.FileSrcs, s)
+							}
+							if place == 2 || place == 3 {
+								m.DBSrcs = append(m.DBSrcs, srcSpec{Name: name, ChainID: uint64(k + 101), Host: "dbnode-" + name})
+							}
+						}
+						m.Stored = stored
+						j.Mixes = append(j.Mixes, m)
+					}
+				}
+			}
+			jobs = append(jobs, j)
+		}
+	}
 	return jobs
 }
 
 func (j eJob) mixes() []mix {
+	if j.Mixes != nil {
+		return j.Mixes
+	}
 	var out []mix
 	var base mix
 	for _, sv := range []slotVar{j.A, j.B} {
